@@ -143,6 +143,27 @@ def guarded_exits():
                         yield "%s\n%s\nelse:\n    print(\"le\")" % (outer, ind(body))
 
 
+# iterables of every kind the constant evaluator may know (family added after the seeded change
+# C16-for-over-empty-lazy-iterator: an empty *lazy* iterator is truthy, only an emptiness test by iteration is right)
+MORE_ITERS = ["[]", '""', "{}", "set()", "range(0)", "range(2, 0)", "enumerate(())", "zip((1, 2), ())", "reversed(())",
+              "iter(())", "filter(None, (0,))", "map(abs, ())", "dict()", "sorted(())", "list()", "tuple()",
+              "[1]", '"ab"', "{1: 2}", "{1}", "enumerate((1,))", "zip((1,), (2,))", "reversed((1,))", "iter((1,))",
+              "filter(None, (1,))", "map(abs, (1,))", "5", "None", "range(1)", "(i for i in ())"]
+SUPPRESS_BODIES = ['raise E("r")', 'print("b")\nraise E("r")', "return 1", "assert p", 'raise ValueError("v")']
+
+
+def iterable_family():
+    for it in MORE_ITERS:
+        for b in bodies0(True):
+            yield "for v in %s:\n%s" % (it, ind(b))
+            yield "for v in %s:\n%s\nelse:\n    print(\"e\")" % (it, ind(b))
+    # context managers that swallow exceptions: the statement after the with block is reachable
+    for cmgr in ("contextlib.suppress(E)", "contextlib.suppress(Exception)", "contextlib.suppress()", "cm()", "contextlib.nullcontext()"):
+        for b in SUPPRESS_BODIES:
+            yield "with %s:\n%s" % (cmgr, ind(b))
+            yield "with %s as w:\n%s" % (cmgr, ind(b))
+
+
 POINTLESS = [
     "1", "x", "x + 1", "[x]", "{1: x}", "x < 2", "not x", "x if p else 1", "[i for i in xs]", "f'{x}'", "xs[:1]", "x.real",
     "(lambda: 0)", "note", "...", "'doc'", "(x, x)",
@@ -151,8 +172,15 @@ POINTLESS = [
     "f'{x:{note(4)}}'", "xs[note(0):]", "note(xs).count", "note(1) + 1", "-note(1)", "note(1) < 2", "not note(1)", "[note(1)]",
     "{1: note(2)}", "(lambda a=note(4): a)", "unknown_fn(1)", "len(note(xs))", "str(note(1))", "note(1) and 2", "p and note(5)",
     "p or note(6)", "(note(7), 1)", "x.bit_length()", "xs.count(1)", "print('side')", "sorted(xs)",
+    "xs[0:1:note(1)]", "xs[note(0):1]", "xs[0:note(1)]", "xs[note(0)]", "{note(1): 2}", "{**note({})}", "[*note(xs)]",
+    "x if note(p) else 1", "(yield_ := note(8))", "lambda: note(9)", "f'{x!r:>{note(2)}}'", "note(1) is None", "x in note(xs)",
+    "-x", "x ** 2", "x % 2", "x.real.imag", "xs[0:1][0:1]", "(x,)[0]", "{1, x}", "{x: x}", "x if x else x",
 ]
-RAISING = ["int('x')", "xs[5]", "{}['k']", "1 // (x - x)", "x.nope", "len(5)", "[][0]", "int(t0)"]
+RAISING = ["int('x')", "xs[5]", "{}['k']", "1 // (x - x)", "x.nope", "len(5)", "[][0]", "int(t0)", "1 / 0", "x[0]", "x()", "-t0", "t0 + 1",
+           "t0 < 1", "{}[x]", "x.real.nope", "[i.nope for i in (1,)]", "next(iter(()))", "(1).nope", "xs[5] if p or not p else 0"]
+# the same raising expressions one level deeper (nested in an if / with / for inside the try body)
+RAISING_NESTS = {"plain": "%s", "in_if": "if x:\n    %s", "in_else": "if not x:\n    pass\nelse:\n    %s", "in_with": "with cm():\n    %s",
+                 "in_for": "for w0 in (1,):\n    %s", "in_while": "while x:\n    %s\n    break", "in_inner_try": "try:\n    %s\nfinally:\n    pass"}
 
 
 # user-defined callables (family added after the seeded change C16-safe-callable-shadowed-name: a bare call through a
@@ -220,10 +248,16 @@ def units(tier):
     ge = list(dict.fromkeys(guarded_exits()))
     for i in range(0, len(ge), 60):
         yield {"t": "shape", "level": 3, "shapes": ge[i : i + 60]}
+    fam = list(dict.fromkeys(iterable_family()))
+    for i in range(0, len(fam), 40):
+        yield {"t": "shape", "level": 4, "shapes": fam[i : i + 40]}
     for e in POINTLESS:
         yield {"t": "pointless", "expr": e}
     for e in RAISING:
         yield {"t": "raising", "expr": e}
+        for nest in RAISING_NESTS:
+            if nest != "plain":
+                yield {"t": "raising", "expr": e, "nest": nest}
 
 
 def shape_program(shape):
@@ -291,7 +325,8 @@ def check_shape(shape, level, with_fc, only=None):
 
 def pointless_program(expr, raising=False):
     if raising:
-        body = "x = 3\nt0 = 'z'\ntry:\n    %s\n    print('no error')\nexcept Exception as err:\n    print('handler', type(err).__name__)\n" % expr
+        stmt = expr if raising is True else RAISING_NESTS[raising] % expr
+        body = "x = 3\nt0 = 'z'\ntry:\n%s\n    print('no error')\nexcept Exception as err:\n    print('handler', type(err).__name__)\n" % ind(stmt)
     else:
         body = "x = 3\nprint('before')\n%s\nprint('after')\n" % expr
     return PRE + "def f(p, q, xs):\n" + ind(body) + "    return 'end'\n" + DRV
@@ -422,7 +457,7 @@ def run_unit(unit):
             if not res["samples"] and info["nontrivial"] and not v:
                 res["samples"].append({"shape": shape})
     else:
-        v, info = check_pointless(unit["expr"], unit["t"] == "raising")
+        v, info = check_pointless(unit["expr"], (unit.get("nest") or True) if unit["t"] == "raising" else False)
         if info["admitted"]:
             res["n"] += 1
             res["nontrivial"].extend(info["nontrivial"])
